@@ -3,7 +3,7 @@ import TenpyModel.C01.B2_Comb10
 C01 part B2 — part 11: the public `combine_legs` with the transposition step (`combineLegs_places_tr`), and the
 pipes made by `_combine_legs_make_pipes` for `pipes=None` (`makePipes_none`).
 -/
-namespace TenpyModel.C01B2
+namespace TenpyModel.C01B2.Comb
 open TenpyModel.Core TenpyModel.C01B
 open Arr (permuteList)
 
@@ -199,4 +199,4 @@ theorem makePipes_none (a : Arr α) (cl : List (List Ax)) (qconj : List (Option 
           exact ⟨(a.lc v).qconj, true, true, _, by rw [← hgi]; exact mkPipe_eq a _ _⟩
 
 end zero
-end TenpyModel.C01B2
+end TenpyModel.C01B2.Comb
